@@ -86,6 +86,16 @@ ByValueRootExt(line, failed) ==
    /\ failed = "jv" /\ line.ver = 3 /\ "jv" \in DOMAIN line.obs /\ line.obs.jv.ok
    /\ line.obs.jv.v # J1(line) /\ line.obs.jv.v = RootKnownOnly(J1(line))
 
+(* F-C03-9: the reference wrapper types (SchemaRef, ResponseRef ... and openapi2.SchemaRef) unmarshal in    *)
+(* place: a reference object sets Ref (and extra / Extensions) and leaves Value, an inline object is        *)
+(* decoded into Value and leaves Ref.  A wrapper value that held a reference and is unmarshalled into with *)
+(* an inline object still says $ref: the serialisation is the EARLIER reference, the input is lost.         *)
+WrapperKeepsRef(line, failed) ==
+   /\ failed = "jh" /\ line.hist.entry = "wrap" /\ line.obs.jh.ok
+   /\ ~HasKey(line.hist.frag, "$ref")
+   /\ \E i \in DOMAIN line.hist.prior : line.hist.prior[i].name \in {"kref", "krefx"}
+   /\ line.obs.jh.v = RefObj(line.d.kind)
+
 Class(line, failed) ==
    IF failed = "first"
    THEN IF AnyNullDropped(line) THEN "any_null_dropped"
@@ -97,5 +107,6 @@ Class(line, failed) ==
    ELSE IF OriginInvented(line, failed) THEN "include_origin_key_invented"
    ELSE IF OriginPanic(line, failed) THEN "include_origin_empty_map_in_sequence_panics"
    ELSE IF ByValueRootExt(line, failed) THEN "v3_T_by_value_drops_root_extensions"
+   ELSE IF WrapperKeepsRef(line, failed) THEN "ref_wrapper_unmarshal_keeps_earlier_ref"
    ELSE "none"
 =============================================================================
